@@ -85,12 +85,13 @@ class C16(core.Check):
     level_text = ("Proved in Coq for every operation, index, slice, step and history, with no size bound: contents and error "
                   "kinds equal those of a Python list model and a failed call changes nothing and fires no callback; the focus is "
                   "None iff empty and otherwise in range after any operation sequence; the modified / focus-changed callback "
-                  "clauses; the focus follows its item for every contiguous operation (index and step-1 slice assignment/deletion, "
-                  "insert, append, extend, pop, remove, +=, *=, clear), reverse and sort.  PARTIAL: item tracking for slices with "
-                  "|step| >= 2 is stated (mfl_focus_tracks_item_full) but decided only by the correspondence and the oracle "
-                  "(exhaustive single operations on lists <= 4/5 with every slice, random histories).  The focus arithmetic the "
-                  "theorems speak about is regenerated from the source each run (py2v); the wiring of each method around it is a "
-                  "hand model tied by an exact extracted-model correspondence (47k+ cases per quick run).")
+                  "clauses; the focus follows its item (positional form: the item at the old focus is at the new focus, the same "
+                  "position when replaced in place, else the next kept item, else the last) for every successful operation: "
+                  "contiguous ones (index and step-1 slice assignment/deletion, insert, append, extend, pop, remove, +=, *=, "
+                  "clear), deletions with any other step, extended-slice assignment, reverse and sort, with a theorem that these "
+                  "families are exhaustive.  The focus arithmetic the theorems speak about is regenerated from the source each "
+                  "run (py2v); the wiring of each method around it is a hand model tied by an exact extracted-model "
+                  "correspondence (67k cases per quick run, walkers included) and an independent built-in-list oracle.")
     level_note = ("Trusted: Coq kernel, py2v translator, ExtrOcamlBasic extraction + OCaml driver, the hand-written method wiring "
                   "and PyList.v list semantics (validated against the implementation and the built-in list, not proved against "
                   "CPython), the Python oracle.  Assumes a valid initial state, identity-compared items, no key= callables.")
